@@ -78,7 +78,7 @@ pub fn run(tier: Tier, seed: u64, replay: Option<String>) -> i32 {
     let e = |m: &ModuleSet| eval(m, "C02");
     let run = GenericRun {
         gcfg: gen_cfg(),
-        n: tier.pick(4000, 120000),
+        n: tier.pick(20000, 300000),
         stream_len: 4000,
         salt: 2,
         shrink_budget: 400,
